@@ -17,6 +17,7 @@ from __future__ import annotations
 
 import json
 import math
+import sys
 from fractions import Fraction
 from pathlib import Path
 
@@ -28,6 +29,10 @@ from common import PropertyCheck, Skip, load_autoarray, mask_json, q, qlist
 
 F = Fraction
 BAND = F(1, 10 ** 9)
+# near-duplicate twins (history stream) perturb a parameter by ~1e-6: the exact rational model values of a rational
+# user function then have numerators of several thousand digits, beyond Python's default int <-> str limit
+if hasattr(sys, "set_int_max_str_digits"):
+    sys.set_int_max_str_digits(200000)
 
 # ------------------------------------------------------------------------------------------------
 # known-findings fragment: the orchestrator merges known_findings.d/*.json into known_findings.json;
@@ -354,7 +359,8 @@ def profile_classes():
         return obj.evaluate(g)
 
     class MockGrid2DLikeObj:
-        def __init__(self, f=None, table=None, geom=None, shape=None, ret_int=False):
+        def __init__(self, f=None, table=None, geom=None, shape=None, ret_int=False,
+                     raise_at=None, raise_cls=ValueError, short=False):
             self.centre = (0.0, 0.0)
             self.ret_int = ret_int   # hand back an integer-dtype array (values are integral)
             self.f = f
@@ -362,8 +368,22 @@ def profile_classes():
             self.geom = geom
             self.shape = shape
             self.calls = 0
+            # injected faults (history stream only; off by default): raise on the `raise_at`-th evaluation,
+            # hand back one value too few
+            self.evals = 0
+            self.raise_at = raise_at
+            self.raise_cls = raise_cls
+            self.short = short
 
         def evaluate(self, g):
+            self.evals += 1
+            if self.raise_at is not None and self.evals >= self.raise_at:
+                raise self.raise_cls("injected fault: the user function rejects this evaluation")
+            if self.short:
+                return self._evaluate(g)[:-1]
+            return self._evaluate(g)
+
+        def _evaluate(self, g):
             if self.table is not None:
                 lvl = min(self.calls, len(self.table) - 1)
                 self.calls += 1
@@ -571,6 +591,171 @@ def hug(rng, v):
     return F(float(t))
 
 
+# ------------------------------------------------------------------------------------------------
+# LARGE cases (round 4, DESIGN §13): sizes on both sides of an integer constant that appeared in the
+# anchored source.  A large case is a compact RECIPE (frame, rectangles, sub-size pattern, function
+# tree); the mask / sub-size map are expanded when it runs.  No model comparison: the oracle states
+# the property directly with vectorised numpy on the implementation's raw output.
+# ------------------------------------------------------------------------------------------------
+LARGE_CAP = {"sub_pixels": 300_000, "unmasked": 140_000, "frame": 1_200_000, "sub_size": 40}
+
+
+def large_mask(rec):
+    """recipe -> boolean mask (True = masked).  `base` fills the frame, `rects` [y0,y1,x0,x1,v] paint
+    rectangles in order, `skip` masks the first `skip` unmasked pixels (row-major) so that the number
+    of unmasked pixels is exact."""
+    h, w = rec["h"], rec["w"]
+    m = np.full((h, w), rec.get("base", "unmasked") == "masked", dtype=bool)
+    for y0, y1, x0, x1, v in rec.get("rects", []):
+        m[y0:y1, x0:x1] = bool(v)
+    skip = rec.get("skip", 0)
+    if skip:
+        flat = m.reshape(-1)
+        flat[np.flatnonzero(~flat)[:skip]] = True
+    return m
+
+
+def large_sub(spec, n):
+    """int | {"pattern": [...], "tail": [...]} -> per-pixel sub-size array of length n"""
+    if isinstance(spec, int):
+        return np.full(n, spec, dtype=int)
+    tail = [int(s) for s in spec.get("tail", [])]
+    body = np.resize(np.array(spec["pattern"], dtype=int), max(0, n - len(tail)))
+    return np.concatenate([body, np.array(tail, dtype=int)]).astype(int)[:n] if n else np.zeros(0, dtype=int)
+
+
+def sub_spec_for_total(total, pattern):
+    """a cyclic per-pixel pattern plus a short tail whose squares sum to exactly `total`
+    -> (spec, number of pixels)"""
+    sq = [s * s for s in pattern]
+    cycles = total // sum(sq)
+    k, rem, i = cycles * len(pattern), total - cycles * sum(sq), 0
+    while rem >= sq[i % len(pattern)]:
+        rem -= sq[i % len(pattern)]
+        k += 1
+        i += 1
+    tail = []
+    while rem > 0:
+        s = min(8, math.isqrt(rem))
+        tail.append(s)
+        rem -= s * s
+    return {"pattern": list(pattern), "tail": tail}, k + len(tail)
+
+
+def mask_recipe_for_unmasked(n, rng):
+    """a non-square frame with a masked strip on the top edge and a hole, exactly n unmasked pixels,
+    touching three frame edges"""
+    w = max(3, int(math.isqrt(max(1, int(n * rng.choice([0.55, 0.7, 1.45, 1.9]))))) | 1)
+    h = -(-(n + 16) // w) + 1
+    rects = [[0, 1, 0, min(w, 7), 1]]
+    if h >= 6 and w >= 6:
+        rects.append([h // 2, h // 2 + 3, w // 2, w // 2 + 2, 1])
+    rec = {"h": h, "w": w, "base": "unmasked", "rects": rects, "skip": 0}
+    u = int((~large_mask(rec)).sum())
+    if u < n:   # tiny n: plain strip
+        rec = {"h": 1, "w": n, "base": "unmasked", "rects": [], "skip": 0}
+        u = n
+    rec["skip"] = u - n
+    return rec
+
+
+def mask_recipe_for_frame(total, rng):
+    """a frame of exactly `total` pixels (non-square when `total` has a divisor pair), masked except for a
+    small region that touches the bottom-right corner and a few isolated pixels near the top-left"""
+    h = 1
+    for d in range(math.isqrt(total), 0, -1):
+        if total % d == 0 and d * d != total:
+            h = d
+            break
+    else:
+        h = math.isqrt(total) if math.isqrt(total) ** 2 == total else 1
+    w = total // h
+    if rng.random() < 0.5 and h > 1:
+        h, w = w, h
+    rects = [[max(0, h - 4), h, max(0, w - 6), w, 0]]
+    if h > 6 and w > 8:
+        rects += [[1, 2, 2, 3, 0], [2, 3, 0, 1, 0], [max(0, h - 6), max(1, h - 5), max(0, w - 7), max(1, w - 6), 0]]
+    return {"h": h, "w": w, "base": "masked", "rects": rects, "skip": 0}
+
+
+def large_values(total):
+    """distinct-ish exact integer sub-values for the binning clause"""
+    j = np.arange(total, dtype=np.int64)
+    return ((j * 2654435761) % 2003 - 1001).astype(float)
+
+
+def large_geometry(rec, g, sub):
+    """the property's geometry, vectorised: pixel (iy, ix), centres, and for every sub-pixel its pixel k,
+    its row a and column b inside the pixel, and its centre (y, x)"""
+    sy, sx, oy, ox = (float(v) for v in g)
+    m = large_mask(rec)
+    h, w = m.shape
+    iy, ix = np.nonzero(~m)            # row-major == slim order
+    yc = oy + ((h - 1) / 2.0 - iy) * sy
+    xc = ox + (ix - (w - 1) / 2.0) * sx
+    sq = sub.astype(np.int64) ** 2
+    cum = np.concatenate([[0], np.cumsum(sq)]).astype(np.int64)
+    k = np.repeat(np.arange(len(sub)), sq)
+    loc = np.arange(cum[-1], dtype=np.int64) - cum[k]
+    sk = sub[k]
+    a, b = loc // np.maximum(sk, 1), loc % np.maximum(sk, 1)
+    y = yc[k] + sy / 2.0 - (2 * a + 1) / (2.0 * sk) * sy
+    x = xc[k] - sx / 2.0 + (2 * b + 1) / (2.0 * sk) * sx
+    return {"iy": iy, "ix": ix, "yc": yc, "xc": xc, "cum": cum, "k": k, "a": a, "b": b, "y": y, "x": x,
+            "sq": sq, "sy": sy, "sx": sx}
+
+
+def ev_np_abs(e, Y, X):
+    """the tree evaluated on absolute values: magnitude against which rounding is judged"""
+    k = e[0]
+    if k == "c":
+        return np.full(Y.shape, abs(float(F(e[1]))))
+    if k == "y":
+        return np.abs(Y)
+    if k == "x":
+        return np.abs(X)
+    if k in ("add", "sub"):
+        return ev_np_abs(e[1], Y, X) + ev_np_abs(e[2], Y, X)
+    if k == "mul":
+        return ev_np_abs(e[1], Y, X) * ev_np_abs(e[2], Y, X)
+    if k == "neg":
+        return ev_np_abs(e[1], Y, X)
+    if k == "div":
+        return ev_np_abs(e[1], Y, X) / np.abs(ev_np(e[2], Y, X))
+    raise ValueError(k)
+
+
+def pixel_means(f, geo):
+    """per-pixel mean of f over the pixel's own sub-centres, and the magnitude of the summands"""
+    starts = geo["cum"][:-1]
+    v = np.add.reduceat(ev_np(f, geo["y"], geo["x"]), starts) / geo["sq"]
+    mag = np.add.reduceat(ev_np_abs(f, geo["y"], geo["x"]), starts) / geo["sq"]
+    return v, mag
+
+
+def large_func(rng, centre, scales, positive=False):
+    """smooth, no discrete decisions: affine part (absent when positive) + a rational peak near `centre`"""
+    cy, cx = centre
+    sy, sx = scales
+    y0, x0 = cy + sy * gen.dyadic(rng, -1, 1, 3), cx + sx * gen.dyadic(rng, -1, 1, 3)
+    dy, dx = affine(1, 0, -y0), affine(0, 1, -x0)
+    den = add(C(F(rng.choice([1, 2, 4, 16]), 16)), mul(C(F(rng.randint(1, 8), 2)), dy, dy),
+              mul(C(F(rng.randint(1, 8), 2)), dx, dx))
+    peak = ["div", C(F(rng.randint(1, 12), 4)), den]
+    if positive:
+        return add(C(F(rng.randint(1, 8), 8)), peak)
+    a, b = gen.dyadic(rng, -4, 4, 2), gen.dyadic(rng, -4, 4, 2)
+    return add(affine(a or F(3), b or F(-5), gen.dyadic(rng, -4, 4, 2)), peak)
+
+
+def _digest(arr):
+    a = np.ascontiguousarray(arr)
+    import hashlib
+
+    return {"len": int(a.shape[0]) if a.ndim else 1, "sha1": hashlib.sha1(a.tobytes()).hexdigest()[:12],
+            "head": [float(v) for v in a.reshape(-1)[:4]]}
+
+
 class C09(PropertyCheck):
     pid = "C09"
     generated_modules = ["OverSample"]  # second tie: translated sub-grid formulas = Model/OverSample.lean (over any field)
@@ -591,6 +776,8 @@ class C09(PropertyCheck):
         "the adaptive sub-size scheme taken when over_sampling is None (config driven; all ones under the pinned config) is an input of the model, not modelled",
         "functools.wraps / *args / **kwargs plumbing of the decorator; cached_property on the over sampler",
     ]
+    # loop ties (DESIGN §12): regenerated from the source on every run, tie theorems proved for all sizes
+    loop_tie_modules = ["LoopsOverSample"]
     modelled_functions = [
         "autoarray/geometry/geometry_util.py:central_pixel_coordinates_2d_from",
         "autoarray/geometry/geometry_util.py:central_scaled_coordinate_2d_from",
@@ -636,6 +823,13 @@ class C09(PropertyCheck):
     # -------------------------------------------------------------------------------- generation
     def generate(self, tier, rng):
         quick = tier == "quick"
+        # 0. thorough tier only: a first portion of the history stream leads (the escalation phase and the
+        #    failing-input search cut the thorough stream by time); the quick stream is unchanged
+        n_hist_first = 0 if quick else self.N_HISTORIES_FIRST
+        for _ in range(n_hist_first):
+            hc = self._history_case(rng, quick)
+            if hc:
+                yield hc
         # 1. exhaustive small masks × sub maps (index tables, grid, binning)
         cells = 4 if quick else 6
         for (h, w) in gen.shapes_upto(cells):
@@ -671,6 +865,15 @@ class C09(PropertyCheck):
         # 6. functions vanishing at every pixel centre (the early-return class)
         for _ in range(6 if quick else 40):
             yield self._zero_centre_case(rng)
+        # 7. HISTORY stream (round 4): short typed histories on real reused objects; every observation
+        #    is compared with the model / oracle value of a FRESH object in that state
+        for _ in range(self.N_HISTORIES["quick" if quick else "thorough"] - n_hist_first):
+            hc = self._history_case(rng, quick)
+            if hc:
+                yield hc
+
+    N_HISTORIES = {"quick": 330, "thorough": 2400}
+    N_HISTORIES_FIRST = 400   # thorough tier: this many histories lead the stream (time-cut searches see them)
 
     def _uniform_case(self, rng, m, geom, sub, tag):
         n = sum(1 for r in m for b in r if not b)
@@ -688,7 +891,7 @@ class C09(PropertyCheck):
                 "values": qlist(vals), "route": rng.choice(routes), "values_as": values_as,
                 "geom_as": geom_as, "sub_as": rng.choice(["ndarray", "list"])}
 
-    def _func_case(self, rng, quick):
+    def _func_case(self, rng, quick, force_paths=None):
         if rng.random() < 0.15:
             m, mkind = degenerate_mask(rng)
         else:
@@ -701,6 +904,8 @@ class C09(PropertyCheck):
                  "custom_grid", "none", "dataset_grids"]
         if n == mj["h"] * mj["w"]:
             paths += ["grid_uniform", "grid_uniform"]
+        if force_paths:   # history stream: the dispatch path is chosen by the history script
+            paths = list(force_paths)
         path = rng.choice(paths)
         if path == "none":
             sub, smode = [1] * n, "adaptive_ones"
@@ -936,6 +1141,10 @@ class C09(PropertyCheck):
         return aa.Grid2D.from_mask(mask=mask, over_sampling=os_)
 
     def run_impl(self, case):
+        if case["kind"] == "large":
+            return self._run_large(case)
+        if case["kind"] == "history":
+            return self._run_history(case)
         if case["kind"] != "uniform":
             # a discrete decision of the user function itself (step / lattice cell / denominator) within
             # 1e-9 of its tie: nothing about this case can be compared
@@ -1057,6 +1266,10 @@ class C09(PropertyCheck):
     # -------------------------------------------------------------------------------- model
     def model_requests(self, case, impl_obs):
         kind = case["kind"]
+        if kind == "large":
+            return []      # judged by the vectorised oracle alone
+        if kind == "history":
+            return self._history_requests(case, impl_obs)
         mj = case["mask"]
         n = mj["bits"].count("0")
         if kind == "uniform":
@@ -1094,6 +1307,8 @@ class C09(PropertyCheck):
         raise ValueError(kind)
 
     def model_obs(self, case, responses):
+        if case["kind"] == "history":
+            return self._history_model_obs(case, responses)
         for r in responses:
             if "ok" not in r:
                 return {"err": r.get("err")}
@@ -1173,6 +1388,8 @@ class C09(PropertyCheck):
             raise Skip("a discrete decision of the user function lies within 1e-9 of its tie")
 
     def compare(self, case, impl_obs, model_obs, cmp):
+        if case["kind"] == "history":
+            return self._history_compare(case, impl_obs, model_obs, cmp)
         if case["kind"] == "iterate":
             a = self._analysis(case)
             self._check_margin(a)
@@ -1201,6 +1418,10 @@ class C09(PropertyCheck):
         return abs(a - b) <= BAND * max(1, abs(a), abs(b))
 
     def oracle(self, case, obs):
+        if case["kind"] == "large":
+            return self._oracle_large(case, obs)
+        if case["kind"] == "history":
+            return self._history_oracle(case, obs)
         if not isinstance(obs, dict) or "err" in obs:
             return False, f"implementation raised {obs}"
         a = self._analysis(case)
@@ -1271,8 +1492,1273 @@ class C09(PropertyCheck):
                                f"relative_accuracy {case['rel']}, schedule {case['steps']}")
         return True, ""
 
+    # ================================================================================ LARGE cases
+    def generate_large(self, hints, rng):
+        """cases whose size — total sub-pixels, unmasked pixels, frame pixels H·W (non-square), the
+        sub-size itself for small constants — is c-1, c, c+1, c + c//3 + 1 and 2c+1 for every new integer
+        constant c of the anchored source, with non-square off-origin anisotropic frames, holes, per-pixel
+        sub-size maps with odd sizes, smooth sign-changing functions.  Judged by the vectorised oracle only."""
+        patterns = [[3, 5, 2, 7, 1, 3, 6], [3], [5, 3], [1, 2, 3, 4, 5, 6, 7, 8], [7, 3, 3], [6, 1, 5]]
+        it_steps = [[3, 5], [5, 2], [3, 2, 4], [7, 3], [3, 3]]
+        f_paths = ["sampler", "decorator", "decorator_raw", "oversampled_grid", "dataset_grids"]
+        u_routes = ["direct", "over_sampling", "grid", "dataset_grids"]
+        for c in sorted({int(h) for h in hints if int(h) >= 2}):
+            targets = [t for t in (c + c // 3 + 1, c + 1, c, c - 1, 2 * c + 1) if t >= 1]
+            k = 0
+            # (a) total number of sub-pixels
+            if 2 * c + 1 <= LARGE_CAP["sub_pixels"]:
+                for t in targets:
+                    k += 1
+                    spec, n = sub_spec_for_total(t, patterns[k % len(patterns)])
+                    yield self._large_case(rng, "func", "sub_pixels", c, t, mask_recipe_for_unmasked(n, rng), spec,
+                                           path=f_paths[k % len(f_paths)])
+                    s = [3, 5, 7, 6][k % 4]
+                    yield self._large_case(rng, "func", "sub_pixels", c, t,
+                                           mask_recipe_for_unmasked(-(-t // (s * s)), rng), s,
+                                           path=f_paths[(k + 1) % len(f_paths)])
+                    spec, n = sub_spec_for_total(t, patterns[(k + 2) % len(patterns)])
+                    yield self._large_case(rng, "uniform", "sub_pixels", c, t, mask_recipe_for_unmasked(n, rng), spec,
+                                           route=u_routes[k % len(u_routes)])
+                    st = it_steps[k % len(it_steps)]
+                    yield self._large_case(rng, "iterate", "sub_pixels", c, t,
+                                           mask_recipe_for_unmasked(-(-t // (st[0] ** 2)), rng), None, steps=st,
+                                           path=["sampler", "decorator", "via_over_sampling"][k % 3])
+            # (b) number of unmasked pixels
+            if 2 * c + 1 <= LARGE_CAP["unmasked"]:
+                for t in targets:
+                    k += 1
+                    spec = {"pattern": [[1, 1, 1, 2, 1, 1, 3, 1], [1, 2, 1, 1], [1, 1, 3]][k % 3], "tail": []}
+                    yield self._large_case(rng, "func", "unmasked", c, t, mask_recipe_for_unmasked(t, rng), spec,
+                                           path=f_paths[k % len(f_paths)])
+                    yield self._large_case(rng, "uniform", "unmasked", c, t, mask_recipe_for_unmasked(t, rng),
+                                           spec if k % 2 else 1, route=u_routes[k % len(u_routes)])
+                    yield self._large_case(rng, "iterate", "unmasked", c, t, mask_recipe_for_unmasked(t, rng), None,
+                                           steps=[[2, 3], [2, 2], [3]][k % 3],
+                                           path=["sampler", "decorator", "via_over_sampling"][k % 3])
+            # (c) frame pixels H·W with a small unmasked region in a corner
+            if 2 * c + 1 <= LARGE_CAP["frame"]:
+                for t in targets:
+                    k += 1
+                    rec = mask_recipe_for_frame(t, rng)
+                    spec = {"pattern": [rng.randint(1, 8) for _ in range(11)], "tail": []}
+                    yield self._large_case(rng, "func", "frame", c, t, rec, spec, path=f_paths[k % len(f_paths)])
+                    yield self._large_case(rng, "uniform", "frame", c, t, rec, spec, route=u_routes[k % len(u_routes)])
+                    yield self._large_case(rng, "iterate", "frame", c, t, rec, None, steps=it_steps[k % len(it_steps)],
+                                           path=["sampler", "decorator", "via_over_sampling"][k % 3])
+            # (d) the sub-size itself (schedules reach 16 by default)
+            if c <= LARGE_CAP["sub_size"]:
+                for t in targets:
+                    k += 1
+                    rec = {"h": 2, "w": 3, "base": "unmasked", "rects": [[0, 1, 1, 2, 1]], "skip": 0}
+                    for spec in (t, {"pattern": [1, t, 2, t], "tail": []}):
+                        yield self._large_case(rng, "func", "sub_size", c, t, rec, spec, path=f_paths[k % len(f_paths)])
+                        yield self._large_case(rng, "uniform", "sub_size", c, t, rec, spec,
+                                               route=u_routes[k % len(u_routes)])
+                    yield self._large_case(rng, "iterate", "sub_size", c, t, rec, None, steps=[2, t, t + 1],
+                                           path=["sampler", "decorator", "via_over_sampling"][k % 3])
+
+    def _large_case(self, rng, what, dim, c, t, rec, sub, path=None, route=None, steps=None):
+        while True:
+            sy, sx = rng.choice(SCALES), rng.choice(SCALES)
+            if sy != sx:
+                break
+        geom = [q(sy), q(sx), q(gen.dyadic(rng, -4, 4, 3) or F(3, 8)), q(gen.dyadic(rng, -4, 4, 3) or F(-5, 8))]
+        g = tuple(F(v) for v in geom)
+        m = large_mask(rec)
+        iy, ix = np.nonzero(~m)
+        j = rng.randrange(len(iy))
+        centre = pixel_centre(rec["h"], rec["w"], g, int(iy[j]), int(ix[j]))
+        case = {"tag": f"large_{what}_{dim}", "kind": "large", "what": what, "dim": dim, "hint": c, "target": t,
+                "mask_recipe": rec, "geom": geom, "unmasked": int(len(iy))}
+        if what == "uniform":
+            case.update(sub=sub, route=route)
+        elif what == "func":
+            case.update(sub=sub, path=path, f=large_func(rng, centre, (g[0], g[1])))
+        else:
+            case.update(steps=steps, path=path, f=large_func(rng, centre, (g[0], g[1]), positive=True),
+                        fr=q(F(float(rng.choice([F(99, 100), F(999, 1000), F(9, 10)])))),
+                        rel=rng.choice([None, None, q(F(1, 1 << 7))]))
+        return case
+
+    def _run_large(self, case):
+        aa = load_autoarray()
+        pc = profile_classes()
+        rec = case["mask_recipe"]
+        m = large_mask(rec)
+        sy, sx, oy, ox = (float(F(v)) for v in case["geom"])
+        mask = aa.Mask2D(mask=m, pixel_scales=(sy, sx), origin=(oy, ox))
+        n = int((~m).sum())
+        what = case["what"]
+        raw = {}
+        if what != "iterate":
+            s = case["sub"]
+            ss = int(s) if isinstance(s, int) else aa.Array2D(values=large_sub(s, n), mask=mask)
+        if what == "uniform":
+            route = case.get("route") or "direct"
+            if route == "direct":
+                ov = aa.OverSamplerUniform(mask=mask, sub_size=ss)
+            elif route == "over_sampling":
+                ov = aa.OverSamplingUniform(sub_size=ss).over_sampler_from(mask=mask)
+            elif route == "dataset_grids":
+                from autoarray.dataset.grids import GridsDataset
+
+                ov = GridsDataset(mask=mask, over_sampling=aa.OverSamplingDataset(
+                    uniform=aa.OverSamplingUniform(sub_size=ss))).uniform.over_sampler
+            else:
+                ov = aa.Grid2D.from_mask(mask=mask, over_sampling=aa.OverSamplingUniform(sub_size=ss)).over_sampler
+            total = int(ov.sub_total)
+            vals = large_values(int((large_sub(case["sub"], n) ** 2).sum()))
+            raw = {"grid": np.asarray(ov.over_sampled_grid, dtype=float).reshape(-1, 2),
+                   "sfs": np.asarray(ov.slim_for_sub_slim).astype(np.int64),
+                   "nat": np.asarray(ov.sub_mask_native_for_sub_mask_slim).astype(np.int64).reshape(-1, 2),
+                   "areas": np.asarray(ov.sub_pixel_areas, dtype=float),
+                   "unmasked_grid": np.asarray(mask.derive_grid.unmasked, dtype=float).reshape(-1, 2),
+                   "binned": np.asarray(ov.binned_array_2d_from(array=vals).slim, dtype=float).ravel(),
+                   "binned_irregular": np.asarray(
+                       ov.binned_array_2d_from(array=aa.ArrayIrregular(values=vals)).slim, dtype=float).ravel(),
+                   "sub_total": np.array([total])}
+        else:
+            obj = pc["cls"](f=case["f"])
+            path = case["path"]
+            if what == "func":
+                if path == "sampler":
+                    res = aa.OverSamplerUniform(mask=mask, sub_size=ss).array_via_func_from(func=pc["plain"], obj=obj)
+                elif path == "oversampled_grid":
+                    ov = aa.OverSamplerUniform(mask=mask, sub_size=ss)
+                    res = obj.image_2d_from(grid=aa.Grid2DOverSampled(
+                        grid=ov.over_sampled_grid, over_sampler=ov, pixels_in_mask=mask.pixels_in_mask))
+                else:
+                    os_ = aa.OverSamplingUniform(sub_size=ss)
+                    if path == "dataset_grids":
+                        from autoarray.dataset.grids import GridsDataset
+
+                        grid = GridsDataset(mask=mask, over_sampling=aa.OverSamplingDataset(uniform=os_)).uniform
+                    else:
+                        grid = aa.Grid2D.from_mask(mask=mask, over_sampling=os_)
+                    res = obj.raw_from(grid=grid) if path == "decorator_raw" else obj.image_2d_from(grid=grid)
+            else:
+                kw = {"fractional_accuracy": float(F(case["fr"])),
+                      "relative_accuracy": None if case["rel"] is None else float(F(case["rel"])),
+                      "sub_steps": [int(s) for s in case["steps"]]}
+                if path == "sampler":
+                    res = aa.OverSamplerIterate(mask=mask, **kw).array_via_func_from(func=pc["plain"], obj=obj)
+                elif path == "via_over_sampling":
+                    res = aa.OverSamplingIterate(**kw).over_sampler_from(mask=mask).array_via_func_from(
+                        func=pc["plain"], obj=obj)
+                else:
+                    res = obj.image_2d_from(grid=aa.Grid2D.from_mask(mask=mask, over_sampling=aa.OverSamplingIterate(**kw)))
+            try:
+                res = res.slim
+            except AttributeError:
+                pass
+            raw = {"values": np.asarray(res, dtype=float).ravel()}
+        case["_raw"] = raw
+        # the observation proper stays in memory (case["_raw"]); what is recorded is a digest
+        return {"large": True, "unmasked": n, **{k: _digest(v) for k, v in raw.items()}}
+
+    @staticmethod
+    def _first_bad(got, want, tol):
+        """index of the first entry with |got - want| > tol (arrays), or None"""
+        if got.shape != want.shape:
+            return -1
+        bad = np.flatnonzero(~(np.abs(got - want) <= tol))
+        return int(bad[0]) if len(bad) else None
+
+    def _oracle_large(self, case, obs):
+        if not isinstance(obs, dict) or "err" in obs:
+            return False, f"implementation raised {obs}"
+        if "_verdict" in case:
+            return case["_verdict"]
+        if "_raw" not in case:
+            self._run_large(case)
+        raw = case.pop("_raw")
+        v = self._oracle_large_raw(case, raw)
+        case["_verdict"] = v
+        return v
+
+    def _oracle_large_raw(self, case, raw):
+        rec, g = case["mask_recipe"], geom_of(case)
+        what = case["what"]
+        n = int((~large_mask(rec)).sum())
+        where = (f"[{what}, {case['dim']} = {case['target']} (constant {case['hint']}), frame {rec['h']}x{rec['w']}, "
+                 f"{n} unmasked, sub {case.get('sub', case.get('steps'))}, path {case.get('path') or case.get('route')}] ")
+        if what == "uniform":
+            sub = large_sub(case["sub"], n)
+            geo = large_geometry(rec, g, sub)
+            total = int(geo["cum"][-1])
+            if int(raw["sub_total"][0]) != total or raw["grid"].shape != (total, 2):
+                return False, where + f"over-sampled grid holds {raw['grid'].shape[0]} points, sub_total " \
+                                      f"{int(raw['sub_total'][0])}; sum of sub_size^2 is {total}"
+            want = np.stack([geo["y"], geo["x"]], axis=1)
+            i = self._first_bad(raw["grid"], want, 1e-9 * np.maximum(1.0, np.abs(want)))
+            if i is not None:
+                j = i // 2
+                return False, where + (f"over-sampled grid point {j} = {raw['grid'][j].tolist()} is not the centre "
+                                       f"{want[j].tolist()} of cell ({int(geo['a'][j])},{int(geo['b'][j])}) of the uniform "
+                                       f"partition of pixel {int(geo['k'][j])}")
+            if raw["sfs"].shape != geo["k"].shape or not np.array_equal(raw["sfs"], geo["k"]):
+                j = int(np.flatnonzero(raw["sfs"] != geo["k"])[0]) if raw["sfs"].shape == geo["k"].shape else -1
+                return False, where + f"slim_for_sub_slim[{j}] is not the slim index of the sub-pixel's own pixel"
+            wn = np.stack([geo["iy"][geo["k"]] * sub[geo["k"]] + geo["a"], geo["ix"][geo["k"]] * sub[geo["k"]] + geo["b"]],
+                          axis=1)
+            if raw["nat"].shape != wn.shape or not np.array_equal(raw["nat"], wn):
+                return False, where + "sub_mask_native_for_sub_mask_slim is not (y*sub + a, x*sub + b) in slim order"
+            wa = geo["sy"] * geo["sx"] / geo["sq"][geo["k"]]
+            i = self._first_bad(raw["areas"], wa, 1e-9 * np.maximum(1.0, wa))
+            if i is not None:
+                return False, where + f"sub_pixel_areas[{i}] is not pixel area / sub_size^2"
+            if abs(float(raw["areas"].sum()) - n * geo["sy"] * geo["sx"]) > 1e-9 * max(1.0, n * geo["sy"] * geo["sx"]):
+                return False, where + "sub-pixel areas do not sum to the unmasked area"
+            wc = np.stack([geo["yc"], geo["xc"]], axis=1)
+            i = self._first_bad(raw["unmasked_grid"], wc, 1e-9 * np.maximum(1.0, np.abs(wc)))
+            if i is not None:
+                return False, where + f"derive_grid.unmasked row {i // 2} is not the pixel centre"
+            vals = large_values(total)
+            wm = np.add.reduceat(vals, geo["cum"][:-1]) / geo["sq"] if n else np.zeros(0)
+            for key in ("binned", "binned_irregular"):
+                i = self._first_bad(raw[key], wm, 1e-9 * np.maximum(1.0, np.abs(wm)))
+                if i is not None:
+                    return False, where + (f"{key}[{i}] = {raw[key][i] if i >= 0 else raw[key].shape} is not the mean "
+                                           f"{wm[i] if i >= 0 else wm.shape} of the pixel's own {int(geo['sq'][max(i, 0)])} sub-values")
+            return True, ""
+        got = raw["values"]
+        if got.shape != (n,):
+            return False, where + f"result has shape {got.shape}, not one value per unmasked pixel ({n})"
+        if not np.all(np.isfinite(got)):
+            return False, where + "non-finite value in result"
+        if what == "func":
+            sub = large_sub(case["sub"], n)
+            want, mag = pixel_means(case["f"], large_geometry(rec, g, sub))
+            i = self._first_bad(got, want, 1e-9 * np.maximum(1.0, np.abs(want)) + 1e-11 * mag)
+            if i is not None:
+                return False, where + (f"pixel {i} (sub {int(sub[i])}): result {float(got[i])!r} is not the mean {float(want[i])!r} of the "
+                                       f"function over the pixel's own sub-centres")
+            return True, ""
+        # iterate: first level of the schedule agreeing with the previous one, else the last level
+        steps = [int(s) for s in case["steps"]]
+        fr = None if case["fr"] is None else float(F(case["fr"]))
+        rel = None if case["rel"] is None else float(F(case["rel"]))
+        table, mags = [], []
+        for s in [1] + steps:
+            v, mg = pixel_means(case["f"], large_geometry(rec, g, np.full(n, s, dtype=int)))
+            table.append(v)
+            mags.append(mg)
+        val = table[-1].copy()
+        undecided = np.ones(n, dtype=bool)
+        inband = np.zeros(n, dtype=bool)
+        for l in range(1, len(steps)):
+            lo, hi, mg = table[l - 1], table[l], np.maximum(mags[l - 1], mags[l])
+            ok = np.ones(n, dtype=bool)
+            band = np.zeros(n, dtype=bool)
+            if fr is not None:
+                pos = (lo > 0) & (hi > 0)
+                ratio = np.where(pos, np.minimum(lo, hi) / np.where(pos, np.maximum(lo, hi), 1.0), 0.0)
+                ok &= pos & (ratio >= fr)
+                band |= pos & (np.abs(ratio - fr) <= 1e-7)
+                band |= (np.abs(lo) <= 1e-9 * mg) | (np.abs(hi) <= 1e-9 * mg)
+            if rel is not None:
+                d = np.abs(lo - hi)
+                ok &= d <= rel
+                band |= np.abs(d - rel) <= 1e-9 * np.maximum(1.0, mg)
+            nb = undecided & band
+            inband |= nb
+            undecided &= ~nb
+            sel = undecided & ok
+            val[sel] = hi[sel]
+            undecided &= ~sel
+        tol = 1e-9 * np.maximum(1.0, np.abs(val)) + 1e-11 * mags[-1]
+        tol[inband] = np.inf
+        i = self._first_bad(got, val, tol)
+        if i is not None:
+            return False, where + (f"pixel {i}: result {float(got[i])!r} is not the value {float(val[i])!r} the stopping rule selects; "
+                                   f"level values {[float(t[i]) for t in table]}, fractional_accuracy {fr}, "
+                                   f"relative_accuracy {rel}, schedule {steps}")
+        return True, ""
+
+    def _shrink_large(self, case):
+        """simplify one ingredient at a time (the size itself is what makes the case fail)"""
+        base = {k: v for k, v in case.items() if not k.startswith("_") and k != "corpus_file"}
+        rec = case["mask_recipe"]
+        if case["what"] != "uniform" and not case.get("f_simple"):
+            f = add(affine(3, -5, 2)) if case["what"] == "func" else add(C(2), mul(C(F(1, 1 << 20)), ["y"], ["y"]))
+            yield {**base, "f": f, "f_simple": True}
+        if isinstance(case.get("sub"), dict):
+            pat = case["sub"]["pattern"]
+            yield {**base, "sub": max(pat)}
+        if len(rec.get("rects", [])) and rec.get("base") == "unmasked":
+            n = int((~large_mask(rec)).sum())
+            r2 = {**rec, "rects": [], "skip": 0}
+            r2["skip"] = int((~large_mask(r2)).sum()) - n
+            yield {**base, "mask_recipe": r2}
+        if case["geom"] != ["1", "1", "0", "0"]:
+            yield {**base, "geom": ["1", "1", "0", "0"]}
+        if case["what"] == "iterate" and len(case["steps"]) > 2:
+            yield {**base, "steps": case["steps"][:2]}
+
+    # ================================================================================ HISTORY stream
+    # A history case is {"kind": "history", "script": label, "cases": [ordinary cases], "opts": {...}}.
+    # cases[i] describes the state of the world at observation i; the observation is made on REAL REUSED
+    # objects (what is shared / edited in place / derived / made to fail in between is in `opts`), and is
+    # compared with the model value and the oracle of cases[i] evaluated on its own — i.e. with what a
+    # freshly built object in that state gives.  A step that legitimately changes the answer (an in-place
+    # edit of the mask / the grid values / the sub-size map / the caller's values, a derived grid with a
+    # shifted origin) is expressed by cases[i] itself being the edited world.
+    def _subs(self, case):
+        if "_subs" not in case:
+            case["_subs"] = [dict(c) for c in case["cases"]]
+        return case["_subs"]
+
+    # ---- generation -------------------------------------------------------------------------------
+    H_SCRIPTS = (["reuse"] * 4 + ["fault"] * 5 + ["fault_pollute"] * 3 + ["obj_mutate"] * 2 + ["shared_os"] * 3 + ["shared_mask"] * 2
+                 + ["twins"] * 5 + ["edit_mask"] * 3 + ["edit_grid"] + ["edit_sub"] * 2 + ["edit_vals"]
+                 + ["derived"] * 4)
+    H_FUNC_PATHS = ["decorator", "decorator", "decorator_raw", "dataset_grids", "custom_grid", "none", "sampler",
+                    "oversampled_grid"]
+    H_GRID_PATHS = ["decorator", "decorator", "decorator_raw", "dataset_grids"]
+
+    def _w_func(self, rng, quick, paths, int_sub=False, list_sub=False):
+        for _ in range(30):
+            c = self._func_case(rng, quick, force_paths=paths)
+            n = c["mask"]["bits"].count("0")
+            if int_sub and not isinstance(c["sub"], int):
+                if c["path"] == "none":
+                    continue
+                c["sub"] = rng.randint(1, 4)
+            if list_sub and (not isinstance(c["sub"], list) or n == 0 or c["path"] == "none"):
+                continue
+            return c
+        return None
+
+    def _w_iter(self, rng, quick, path=None):
+        for _ in range(30):
+            c = self._table_case(rng, quick) if rng.random() < 0.35 else self._iterate_case(rng, quick)
+            if not c:
+                continue
+            if path:
+                c["path"] = path
+            try:
+                if self.known_finding(c, None) is None and not self._analysis(c)["early_uncertain"]:
+                    c.pop("_analysis", None)
+                    return c
+            except Exception:
+                pass
+        return None
+
+    def _w_uniform(self, rng, routes=("direct", "over_sampling", "grid", "dataset_grids"), int_sub=False,
+                   list_sub=False):
+        for _ in range(30):
+            m, kind = degenerate_mask(rng) if rng.random() < 0.15 else rand_mask(rng, 5, 5)
+            n = sum(1 for r in m for b in r if not b)
+            if n == 0 and (list_sub or rng.random() < 0.7):
+                continue
+            sub, smode = rand_sub(rng, n, 400) if n else (rng.choice([1, 2]), "empty")
+            if int_sub and not isinstance(sub, int):
+                sub = rng.randint(1, 4)
+            if list_sub and not isinstance(sub, list):
+                sub = [rng.randint(1, 5) for _ in range(n)]
+            geom = rand_int_geom(rng) if rng.random() < 0.2 else rand_geom(rng)
+            c = self._uniform_case(rng, m, geom, sub, f"uniform_{smode}")
+            c["route"] = rng.choice(list(routes))
+            return c
+        return None
+
+    def _h_world(self, rng, quick, kinds=("func", "iterate", "uniform"), **kw):
+        k = rng.choice(kinds)
+        if k == "func":
+            return self._w_func(rng, quick, kw.get("paths") or self.H_FUNC_PATHS, int_sub=kw.get("int_sub", False),
+                                list_sub=kw.get("list_sub", False))
+        if k == "iterate":
+            return self._w_iter(rng, quick, path=rng.choice(kw.get("ipaths") or ["sampler", "via_over_sampling",
+                                                                                   "decorator"]))
+        return self._w_uniform(rng, int_sub=kw.get("int_sub", False), list_sub=kw.get("list_sub", False),
+                               **({"routes": kw["routes"]} if kw.get("routes") else {}))
+
+    def _fresh_values(self, rng, c, total):
+        vals = gen.distinct_ints(rng, total)
+        if c.get("values_as") in ("f64", "f32", "list_float") and rng.random() < 0.6:
+            vals = [F(v, 8) for v in vals]
+        return qlist(vals)
+
+    def _v_newf(self, rng, c):
+        """the same world with a different user function / level table / sub-values"""
+        c2 = {k: v for k, v in c.items() if k != "ret_int"}
+        mj, g = c["mask"], geom_of(c)
+        if c["kind"] == "uniform":
+            c2["values"] = self._fresh_values(rng, c, len(c["values"]))
+            return c2
+        if "table" in c:
+            how = rng.choice(["double", "shift", "reverse"])
+            rows = [[F(v) for v in r] for r in c["table"]]
+            if how == "double":
+                rows = [[2 * v for v in r] for r in rows]
+            elif how == "shift":
+                rows = [[v + F(rng.choice([1, 2, 1]), rng.choice([1, 2, 4])) for v in r] for r in rows]
+            else:
+                rows = [list(reversed(r)) for r in rows]
+            c2["table"] = [qlist(r) for r in rows]
+            c2.pop("ret_int", None)
+            if all(v.denominator == 1 for r in rows for v in r) and c.get("ret_int"):
+                c2["ret_int"] = True
+        else:
+            for _ in range(8):
+                f, fk = rand_func(rng, mj, g, positive=(c["kind"] == "iterate" and rng.random() < 0.75))
+                if expr_size(f) <= 120:
+                    break
+            c2["f"] = f
+            if c["kind"] == "func" and f[0] == "c" and F(f[1]).denominator == 1 and rng.random() < 0.5:
+                c2["ret_int"] = True
+        if c["kind"] == "iterate":
+            try:
+                if self.known_finding(c2, None) is not None or self._analysis(c2)["early_uncertain"]:
+                    return None
+            except Exception:
+                return None
+            c2.pop("_analysis", None)
+        return c2
+
+    def _v_newworld(self, rng, c):
+        """another mask and geometry, the same sub-size / thresholds / schedule / function (shared config)"""
+        c2 = dict(c)
+        same_frame = rng.random() < 0.5
+        for _ in range(20):
+            if same_frame:
+                # the hardest neighbour for a loosely keyed cache: same frame, same number of unmasked pixels,
+                # same (or the same but for one entry) geometry, the unmasked pixels elsewhere
+                bits = list(c["mask"]["bits"])
+                rng.shuffle(bits)
+                mj = {**c["mask"], "bits": "".join(bits)}
+                if mj["bits"] == c["mask"]["bits"]:
+                    same_frame = False
+                    continue
+            else:
+                m, _k = degenerate_mask(rng) if rng.random() < 0.1 else rand_mask(rng, 5, 5, max_unmasked=12)
+                mj = mask_json(m)
+            n = mj["bits"].count("0")
+            if n == 0 and c["kind"] != "uniform":
+                continue
+            c2["mask"] = mj
+            if same_frame:
+                c2["geom"] = list(c["geom"])
+                if "table" not in c and rng.random() < 0.4:
+                    i = rng.randrange(4)
+                    c2["geom"][i] = q(self._nudge(c["geom"][i], F(rng.choice([1, 3, 10]), 10 ** 6), absolute=i >= 2))
+            else:
+                c2["geom"] = rand_geom(rng, exact=bool(c.get("exact"))) if "table" in c or rng.random() < 0.8 \
+                    else rand_int_geom(rng)
+            c2["geom_as"] = "int" if all(F(v).denominator == 1 for v in c2["geom"]) else "float"
+            if c["kind"] == "uniform":
+                c2["values"] = self._fresh_values(rng, c, n * c["sub"] ** 2)
+            if "table" in c:
+                c2["table"] = [qlist([F(rng.randint(1, 64), 8) for _ in range(mj["h"] * mj["w"])])
+                               for _ in c["table"]]
+                c2.pop("ret_int", None)
+            if c["kind"] == "iterate":
+                try:
+                    if self.known_finding(c2, None) is not None or self._analysis(c2)["early_uncertain"]:
+                        continue
+                except Exception:
+                    continue
+                c2.pop("_analysis", None)
+            return c2
+        return None
+
+    @staticmethod
+    def _nudge(v, delta, absolute=False):
+        v = F(v)
+        return F(float(v + delta * max(1, abs(v)))) if absolute else F(float(v * (1 + delta)))
+
+    def _v_twin(self, rng, c):
+        """a near-duplicate: one parameter perturbed by ~1e-6..1e-5 relative (inside np.allclose's default
+        tolerance, far outside the property's 1e-9), or one discrete entry changed with the shape kept"""
+        delta = F(rng.choice([1, 3, 10]), 10 ** 6) * rng.choice([1, -1])
+        c2 = dict(c)
+        kind = c["kind"]
+        n = c["mask"]["bits"].count("0")
+        opts = ["scale", "scale", "origin", "origin", "mask_move"]
+        if kind != "uniform":
+            opts += ["const", "const"]
+        if kind == "iterate":
+            opts += ["fr", "fr", "rel"]
+        else:
+            opts += ["sub_entry", "sub_entry"]
+        if kind == "uniform":
+            opts += ["values"]
+        for _ in range(10):
+            how = rng.choice(opts)
+            if how in ("scale", "origin"):
+                if "table" in c:
+                    continue   # the table callable answers by pixel; the geometry of a table world stays dyadic
+                i = rng.choice([0, 1]) + (2 if how == "origin" else 0)
+                geom = list(c["geom"])
+                geom[i] = q(self._nudge(geom[i], delta, absolute=(how == "origin")))
+                c2["geom"], c2["geom_as"] = geom, "float"
+            elif how == "const":
+                if "table" in c:
+                    rows = [list(r) for r in c["table"]]
+                    l, k = rng.randrange(len(rows)), rng.randrange(len(rows[0]))
+                    rows[l][k] = q(self._nudge(rows[l][k], delta))
+                    c2["table"] = rows
+                    c2.pop("ret_int", None)
+                else:
+                    c2["f"] = ["add", c["f"], C(F(float(delta)))] if rng.random() < 0.5 else \
+                        ["mul", c["f"], C(F(float(1 + delta)))]
+                    c2.pop("ret_int", None)
+            elif how == "fr":
+                if c["fr"] is None:
+                    continue
+                fr = self._nudge(c["fr"], -abs(delta))
+                if not fr > 0:
+                    continue
+                c2["fr"], c2["num_as"] = q(fr), "float"
+            elif how == "rel":
+                if c["rel"] is None:
+                    continue
+                c2["rel"], c2["num_as"] = q(F(float(F(c["rel"]) + F(1, 10 ** 10)))), "float"
+            elif how == "sub_entry":
+                if n == 0 or c.get("path") == "none":
+                    continue
+                sub = expand_sub(c, n)
+                k = rng.randrange(n)
+                sub[k] = sub[k] + 1 if sub[k] < 8 and (sub[k] == 1 or rng.random() < 0.5) else sub[k] - 1
+                c2["sub"] = sub
+                if kind == "uniform":
+                    c2["values"] = self._fresh_values(rng, c, sum(s * s for s in sub))
+            elif how == "mask_move":
+                bits = c["mask"]["bits"]
+                un = [i for i, b in enumerate(bits) if b == "0"]
+                ma = [i for i, b in enumerate(bits) if b == "1"]
+                if not un or not ma or "table" in c:
+                    continue
+                i, j = rng.choice(un), rng.choice(ma)
+                b2 = list(bits)
+                b2[i], b2[j] = "1", "0"
+                c2["mask"] = {**c["mask"], "bits": "".join(b2)}
+                if c.get("route") == "grid_uniform" or c.get("path") == "grid_uniform":
+                    continue
+            elif how == "values":
+                if not c["values"]:
+                    continue
+                vals = list(c["values"])
+                k = rng.randrange(len(vals))
+                vals[k] = q(self._nudge(vals[k], delta))
+                c2["values"], c2["values_as"] = vals, "f64"
+            if kind == "iterate":
+                try:
+                    if self.known_finding(c2, None) is not None or self._analysis(c2)["early_uncertain"]:
+                        c2 = dict(c)
+                        continue
+                except Exception:
+                    c2 = dict(c)
+                    continue
+                c2.pop("_analysis", None)
+            c2["twin"] = how
+            return c2
+        return None
+
+    def _v_mask_edit(self, rng, c):
+        """the same frame with one or two pixels toggled (sub-size is an int, so every length follows)"""
+        bits = list(c["mask"]["bits"])
+        for _ in range(rng.choice([1, 1, 2])):
+            i = rng.randrange(len(bits))
+            bits[i] = "0" if bits[i] == "1" else "1"
+        c2 = dict(c)
+        c2["mask"] = {**c["mask"], "bits": "".join(bits)}
+        n = c2["mask"]["bits"].count("0")
+        if c2["mask"]["bits"] == c["mask"]["bits"] or (n == 0 and c["kind"] != "uniform"):
+            return None
+        if c["kind"] == "uniform":
+            c2["values"] = self._fresh_values(rng, c, n * c["sub"] ** 2)
+        if c["kind"] == "iterate":
+            try:
+                if self.known_finding(c2, None) is not None or self._analysis(c2)["early_uncertain"]:
+                    return None
+            except Exception:
+                return None
+            c2.pop("_analysis", None)
+        return c2
+
+    def _history_case(self, rng, quick):
+        script = rng.choice(self.H_SCRIPTS)
+        decoy = rng.randrange(1, 1 << 16) if rng.random() < 0.5 else None
+        all_share = {"mask": True, "os": True, "holder": True}
+        steps, share, cases = None, dict(all_share), None
+        if script in ("reuse", "fault", "obj_mutate"):
+            a = self._h_world(rng, quick)
+            if not a:
+                return None
+            cases = [a]
+            for _ in range(rng.choice([1, 2, 2])):
+                b = self._v_newf(rng, a)
+                if b is None:
+                    return None
+                if b["kind"] == "func" and a["path"] in ("decorator", "decorator_raw"):
+                    b["path"] = rng.choice(["decorator", "decorator_raw"])   # a sibling method on the same grid
+                cases.append(b)
+            steps = [{} for _ in cases]
+            if script == "obj_mutate":
+                for s in steps[1:]:
+                    s["obj"] = "mutate"
+            if script == "fault":
+                for i, s in enumerate(steps):
+                    if i == 0 and rng.random() < 0.5:
+                        continue
+                    kind = a["kind"]
+                    ne = len(a["steps"]) + 1 if kind == "iterate" else 1   # evaluations of one iterate call
+                    s["fault"] = rng.choice(["binned_short", "func_raise"] if kind == "uniform" else
+                                            ["raise_1", "raise_1", "short"] if kind == "func" else
+                                            ["raise_1", "raise_2", f"raise_{max(1, ne - 1)}", f"raise_{ne}",
+                                             f"raise_{ne}"])
+                    if kind == "iterate" and rng.random() < 0.6:
+                        # the failing call evaluates a function made to leave as much behind as possible: it
+                        # converges at once on one side of the frame and never on the other
+                        s["pollute"] = True
+                    s["exc"] = rng.choice(["ValueError", "RuntimeError", "ZeroDivisionError", "FloatingPointError",
+                                           "KeyError"])
+                    if kind != "uniform" and len(cases) > 1 and not s.get("pollute") and rng.random() < 0.6:
+                        # the failing call evaluates ANOTHER step's function: whatever it leaves behind differs
+                        # from what the observed call would write itself
+                        s["fault_case"] = rng.choice([j for j in range(len(cases)) if j != i])
+                if not any(s.get("fault") for s in steps):
+                    steps[-1]["fault"], steps[-1]["exc"] = ("binned_short" if a["kind"] == "uniform" else "raise_1"), \
+                        "ValueError"
+            if a["kind"] == "uniform":
+                for s in steps:
+                    s["order"] = rng.randrange(1, 1 << 16)
+                    if rng.random() < 0.3:
+                        s["readonly"] = True     # the caller's sub-values are a read-only array
+        elif script == "fault_pollute":
+            # the iterate scheme, interrupted as late as possible by a function made to leave as much behind as it
+            # can, then used again for a function that has pixels which never agree (their value is assembled last)
+            a = None
+            for _ in range(6):
+                cand = self._w_iter(rng, quick, path=rng.choice(["sampler", "via_over_sampling", "decorator"]))
+                if not cand or len(cand["steps"]) < 2:
+                    continue
+                a = a or cand
+                try:
+                    an = self._analysis(dict(cand))
+                    nlev = len(an["table"]) - 1
+                    if any(v == an["table"][nlev][k] and all(an["table"][l][k] != v for l in range(1, nlev))
+                           for k, v in enumerate(an["expected"])):
+                        a = cand
+                        break
+                except Exception:
+                    pass
+            if not a:
+                return None
+            cases = [a]
+            if rng.random() < 0.5:
+                b = self._v_newf(rng, a)
+                if b:
+                    cases = rng.choice([[a, b], [b, a]])
+            ne = len(a["steps"]) + 1
+            steps = [{} for _ in cases]
+            for i in ([rng.randrange(len(cases))] if rng.random() < 0.7 else range(len(cases))):
+                steps[i] = {"fault": f"raise_{rng.choice([ne, ne, max(3, ne - 1)])}", "pollute": True,
+                            "exc": rng.choice(["ValueError", "RuntimeError", "ZeroDivisionError", "FloatingPointError"])}
+        elif script == "shared_os":
+            a = self._h_world(rng, quick, int_sub=True, routes=("over_sampling", "grid", "dataset_grids"),
+                              paths=self.H_GRID_PATHS, ipaths=["via_over_sampling", "decorator"])
+            b = a and self._v_newworld(rng, a)
+            if not b:
+                return None
+            cases = rng.choice([[a, b], [b, a], [a, b, a], [b, a, b]])
+            share = {"os": True, "obj": rng.random() < 0.5, "holder": rng.random() < 0.5, "mask": True}
+        elif script == "shared_mask":
+            a = self._h_world(rng, quick, kinds=("func", "uniform"))
+            if not a or a.get("path") == "custom_grid":
+                return None
+            # a sibling scheme on the same Mask2D object: the iterate scheme / another uniform sub-size map
+            b = None
+            for _ in range(20):
+                cand = self._w_iter(rng, quick, path=rng.choice(["sampler", "via_over_sampling", "decorator"]))
+                if cand and "table" not in cand:
+                    b = dict(cand)
+                    b["mask"], b["geom"] = a["mask"], a["geom"]
+                    b["geom_as"] = a.get("geom_as", "float")
+                    try:
+                        if b["mask"]["bits"].count("0") and self.known_finding(b, None) is None \
+                                and not self._analysis(b)["early_uncertain"]:
+                            b.pop("_analysis", None)
+                            break
+                    except Exception:
+                        pass
+                    b = None
+            if not b:
+                return None
+            cases = rng.choice([[a, b], [b, a], [a, b, a], [b, a, b]])
+            share = {"mask": True, "os": True, "holder": rng.random() < 0.5}
+        elif script == "twins":
+            a = self._h_world(rng, quick)
+            b = a and self._v_twin(rng, a)
+            if not b:
+                return None
+            cases = rng.choice([[a, b], [a, b, a], [b, a], [b, a, b]])
+            share = {**all_share, "obj": True}
+            if a["kind"] == "uniform" and rng.random() < 0.3:
+                for c in (a, b):
+                    c["route"] = "util"     # the module-level jitted utilities called twice
+        elif script == "edit_mask":
+            a = self._h_world(rng, quick, int_sub=True, paths=["decorator", "decorator_raw", "dataset_grids", "sampler",
+                                                               "oversampled_grid"],
+                              routes=("direct", "over_sampling", "grid", "dataset_grids"))
+            if a and "table" in a:
+                return None
+            b = a and self._v_mask_edit(rng, a)
+            if not b:
+                return None
+            cases = rng.choice([[a, b], [a, b, a]])
+            steps = [{}] + [{"edit": "mask"} for _ in cases[1:]]
+            share = {"mask": True, "os": True}
+        elif script == "edit_grid":
+            a = self._w_func(rng, quick, ["custom_grid"])
+            n = a["mask"]["bits"].count("0") if a else 0
+            if not a or n == 0:
+                return None
+            b = dict(a)
+            rows = [list(r) for r in a["grid"]]
+            ints = a.get("grid_as") in ("list_int", "i64")
+            for k in rng.sample(range(n), rng.randint(1, min(2, n))):
+                rows[k] = [q(F(rng.randint(-6, 6))), q(F(rng.randint(-6, 6)))] if ints else \
+                    [q(gen.dyadic(rng, -6, 6, 3)), q(gen.dyadic(rng, -6, 6, 3))]
+            b["grid"] = rows
+            cases = [a, b] if rng.random() < 0.6 else [a, b, a]
+            steps = [{}] + [{"edit": "grid"} for _ in cases[1:]]
+        elif script == "edit_sub":
+            a = self._h_world(rng, quick, kinds=("func", "uniform"), list_sub=True,
+                              paths=["decorator", "decorator_raw", "dataset_grids", "sampler", "oversampled_grid"])
+            if not a:
+                return None
+            b = dict(a)
+            sub = list(a["sub"])
+            for k in rng.sample(range(len(sub)), rng.randint(1, min(2, len(sub)))):
+                sub[k] = rng.choice([s for s in range(1, 7) if s != sub[k]])
+            b["sub"] = sub
+            if a["kind"] == "uniform":
+                b["values"] = self._fresh_values(rng, a, sum(s * s for s in sub))
+            cases = [a, b] if rng.random() < 0.6 else [a, b, a]
+            steps = [{}] + [{"edit": "sub"} for _ in cases[1:]]
+            for c in cases:
+                c["sub_as"] = "ndarray"
+        elif script == "edit_vals":
+            a = self._w_uniform(rng)
+            if not a or not a["values"]:
+                return None
+            a["values_as"] = "f64"
+            b = self._v_newf(rng, a)
+            if rng.random() < 0.5:       # only a few entries change
+                vals = list(a["values"])
+                for k in rng.sample(range(len(vals)), rng.randint(1, min(3, len(vals)))):
+                    vals[k] = b["values"][k]
+                b["values"] = vals
+            cases = [a, b] if rng.random() < 0.6 else [a, b, a]
+            steps = [{"order": rng.randrange(1, 1 << 16)}] + [{"edit": "vals", "order": rng.randrange(1, 1 << 16)}
+                                                              for _ in cases[1:]]
+        elif script == "derived":
+            a = self._w_func(rng, quick, self.H_GRID_PATHS) if rng.random() < 0.75 else \
+                self._w_iter(rng, quick, path="decorator")
+            if not a or "table" in a:
+                return None
+            how = rng.choice(["slim", "copy", "deepcopy", "arith0", "subtracted", "subtracted", "regrid_os",
+                              "regrid_os", "arith_shift"])
+            n = a["mask"]["bits"].count("0")
+            b = self._v_newf(rng, a) if rng.random() < 0.6 else dict(a)
+            if b is None:
+                return None
+            if how in ("subtracted", "arith_shift"):
+                off = (gen.dyadic(rng, -2, 2, 3), gen.dyadic(rng, -2, 2, 3))
+                if off == (0, 0):
+                    off = (F(1, 2), F(-1, 4))
+                g = geom_of(a)
+                if how == "subtracted":
+                    b["geom"] = [a["geom"][0], a["geom"][1], q(g[2] - off[0]), q(g[3] - off[1])]
+                    b["geom_as"] = "float"
+                else:
+                    if a["kind"] != "func":
+                        return None
+                    mj = a["mask"]
+                    b["grid"] = [[q(p[0] - off[0]), q(p[1] - off[1])] for p in
+                                 (pixel_centre(mj["h"], mj["w"], g, y, x) for y, x in unmasked_pixels(mj))]
+                    b["path"], b["grid_as"] = "custom_grid", "f64"
+                b["offset"] = [q(off[0]), q(off[1])]
+            if how == "regrid_os":
+                if a["kind"] != "func" or n == 0:
+                    return None
+                b["sub"] = rng.choice([rng.randint(1, 5), [rng.randint(1, 5) for _ in range(n)]])
+            if b["kind"] == "iterate":
+                try:
+                    if self.known_finding(b, None) is not None or self._analysis(b)["early_uncertain"]:
+                        return None
+                except Exception:
+                    return None
+                b.pop("_analysis", None)
+            a2 = self._v_newf(rng, a) or a
+            cases = [a, b, a2] if rng.random() < 0.6 else [a, b]
+            steps = [{}, {"derive": how}] + ([{"back": True}] if len(cases) == 3 else [])
+            decoy = decoy or rng.randrange(1, 1 << 16)   # the source grid's derived state is read first
+        if not cases:
+            return None
+        cases = [{k: v for k, v in c.items() if not k.startswith("_")} for c in cases]
+        opts = {"share": share, "decoy": decoy, "steps": steps or [{} for _ in cases]}
+        return {"tag": f"hist_{script}_{cases[0]['kind']}", "kind": "history", "script": script, "cases": cases,
+                "opts": opts}
+
+    # ---- execution on real, reused objects ---------------------------------------------------------
+    def _iter_kw(self, c):
+        def num(v):
+            v = F(v)
+            return int(v) if (c.get("num_as") == "int" and v.denominator == 1) else float(v)
+
+        fr = None if c["fr"] is None else num(c["fr"])
+        rel = None if c["rel"] is None else num(c["rel"])
+        steps = [int(s) for s in c["steps"]]
+        if c.get("steps_as") == "tuple":
+            steps = tuple(steps)
+        kw = {"fractional_accuracy": fr, "relative_accuracy": rel, "sub_steps": steps}
+        if c.get("kw_style") == "omit_defaults":
+            if c["fr"] is not None and F(c["fr"]) == F(0.9999):
+                del kw["fractional_accuracy"]
+            if rel is None:
+                del kw["relative_accuracy"]
+            if list(steps) == [2, 4, 8, 16] and c["path"] != "sampler":
+                del kw["sub_steps"]
+        return kw
+
+    @staticmethod
+    def _obj_args(c):
+        if "table" in c:
+            sy, sx, oy, ox = (float(F(v)) for v in c["geom"])
+            return {"f": None, "table": [np.array([float(F(v)) for v in row]) for row in c["table"]],
+                    "geom": (sy, sx, oy, ox), "shape": (c["mask"]["h"], c["mask"]["w"]),
+                    "ret_int": bool(c.get("ret_int"))}
+        return {"f": c["f"], "table": None, "geom": None, "shape": None,
+                "ret_int": bool(c.get("ret_int")) if c["kind"] == "func" else False}
+
+    @staticmethod
+    def _custom_grid_values(c):
+        ga = c.get("grid_as", "f64")
+        if ga == "list_int":
+            gv = [[int(F(a)), int(F(b))] for a, b in c["grid"]]
+        elif ga == "i64":
+            gv = np.array([[int(F(a)), int(F(b))] for a, b in c["grid"]], dtype=np.int64).reshape(-1, 2)
+        elif ga == "list_float":
+            gv = [[float(F(a)), float(F(b))] for a, b in c["grid"]]
+        else:
+            gv = np.array([[float(F(a)), float(F(b))] for a, b in c["grid"]]).reshape(-1, 2)
+        if len(gv) == 0:
+            gv = np.zeros((0, 2))
+        return gv
+
+    @staticmethod
+    def _mkey(c):
+        return (c["mask"]["h"], c["mask"]["w"], c["mask"]["bits"], tuple(c["geom"]), c.get("geom_as"))
+
+    def _oskey(self, c):
+        if c["kind"] == "iterate":
+            return ("it", c["fr"], c["rel"], tuple(c["steps"]), c.get("kw_style"), c.get("steps_as"), c.get("num_as"))
+        s = c["sub"]
+        return ("un", s) if isinstance(s, int) else ("un", tuple(s), c.get("sub_as"), self._mkey(c))
+
+    @staticmethod
+    def _path(c):
+        return (c.get("route") or "direct") if c["kind"] == "uniform" else c["path"]
+
+    def _h_build(self, aa, c, mask, os_=None, ss=None):
+        """the real objects of world c on `mask`: config (`os`), sub-size map (`ss`), `grid` and / or `sampler`"""
+        kind, path = c["kind"], self._path(c)
+        o = {"mask": mask}
+        if kind == "iterate":
+            kw = self._iter_kw(c)
+            if path == "sampler":
+                o["sampler"] = aa.OverSamplerIterate(mask=mask, **kw)
+            else:
+                o["os"] = os_ if os_ is not None else aa.OverSamplingIterate(**kw)
+                if path == "via_over_sampling":
+                    o["sampler"] = o["os"].over_sampler_from(mask=mask)
+                else:
+                    o["grid"] = aa.Grid2D.from_mask(mask=mask, over_sampling=o["os"])
+            return o
+        if path == "none":
+            o["grid"] = aa.Grid2D.from_mask(mask=mask)
+            return o
+        o["ss"] = ss if ss is not None else (os_.sub_size if os_ is not None else self._sub_size(aa, c, mask))
+        if path in ("sampler", "direct", "oversampled_grid", "util"):
+            o["sampler"] = aa.OverSamplerUniform(mask=mask, sub_size=o["ss"])
+            return o
+        o["os"] = os_ if os_ is not None else aa.OverSamplingUniform(sub_size=o["ss"])
+        if path == "over_sampling":
+            o["sampler"] = o["os"].over_sampler_from(mask=mask)
+        elif path == "custom_grid":
+            o["grid"] = aa.Grid2D(values=self._custom_grid_values(c), mask=mask, over_sampling=o["os"])
+        else:
+            o["grid"] = self._uniform_grid(aa, c, mask, o["os"])
+        if kind == "uniform" and "sampler" not in o:
+            o["sampler"] = o["grid"].over_sampler
+        return o
+
+    def _h_decoy(self, aa, pc, o, seed):
+        """read every other public derived quantity / sibling API of the objects involved, in a seeded order,
+        BEFORE the observed reads (none of them may change what is observed afterwards)"""
+        import random as _random
+
+        rr = _random.Random(seed)
+        reads = []
+        mask = o["mask"]
+        for name in ("pixels_in_mask", "shape_slim", "shape_native", "pixel_scales", "origin", "is_all_true",
+                     "is_all_false"):
+            reads.append(lambda name=name: getattr(mask, name))
+        reads.append(lambda: np.asarray(mask.derive_grid.unmasked))
+        reads.append(lambda: np.asarray(mask.derive_indexes.native_for_slim))
+        g = o.get("grid")
+        if g is not None:
+            for name in ("slim", "native", "is_uniform", "shape_native", "pixel_scales", "origin", "over_sampling",
+                         "over_sampler", "flipped"):
+                reads.append(lambda name=name: getattr(g, name))
+        ov = o.get("sampler")
+        if ov is None and g is not None and getattr(g, "over_sampling", None) is not None:
+            reads.append(lambda: self._h_decoy_sampler(aa, pc, g.over_sampler, rr.randrange(1 << 16)))
+        if ov is not None:
+            reads.append(lambda: self._h_decoy_sampler(aa, pc, ov, rr.randrange(1 << 16)))
+        rr.shuffle(reads)
+        for r in reads[:rr.randint(3, len(reads))]:
+            try:
+                r()
+            except Exception:
+                pass
+
+    def _h_decoy_sampler(self, aa, pc, ov, seed):
+        import random as _random
+
+        rr = _random.Random(seed)
+        const = pc["cls"](f=C(F(3, 4)))
+        reads = []
+        if isinstance(ov, aa.OverSamplerUniform):
+            for name in ("sub_total", "sub_length", "sub_fraction", "sub_pixel_areas", "over_sampled_grid",
+                         "slim_for_sub_slim", "sub_mask_native_for_sub_mask_slim"):
+                reads.append(lambda name=name: getattr(ov, name))
+            reads.append(lambda: ov.binned_array_2d_from(array=np.ones(int(ov.sub_total))))
+            reads.append(lambda: ov.array_via_func_from(func=pc["plain"], obj=const))
+        else:
+            reads.append(lambda: ov.array_at_sub_size_from(func=pc["plain"], cls=const, mask=ov.mask, sub_size=2))
+            reads.append(lambda: ov.array_via_func_from(func=pc["plain"], obj=const))
+            reads.append(lambda: (ov.fractional_accuracy, ov.relative_accuracy, ov.sub_steps))
+        rr.shuffle(reads)
+        for r in reads[:rr.randint(2, len(reads))]:
+            try:
+                r()
+            except Exception:
+                pass
+
+    def _h_observe(self, aa, pc, c, o, obj, d):
+        kind, path = c["kind"], self._path(c)
+        if kind == "uniform":
+            if path == "util":
+                return self.run_impl({k: v for k, v in c.items() if not k.startswith("_")})
+            ov, mask = o["sampler"], o["mask"]
+            vals = o["vals"]
+            if d.get("readonly") and isinstance(vals, np.ndarray):
+                vals = vals.copy()
+                vals.setflags(write=False)
+            reads = {
+                "grid": lambda: [qlist(p) for p in np.asarray(ov.over_sampled_grid, dtype=float).reshape(-1, 2)],
+                "slim_for_sub_slim": lambda: [int(v) for v in ov.slim_for_sub_slim],
+                "sub_native": lambda: [[int(a), int(b)] for a, b in
+                                       np.asarray(ov.sub_mask_native_for_sub_mask_slim).reshape(-1, 2)],
+                "areas": lambda: qlist(np.asarray(ov.sub_pixel_areas, dtype=float)),
+                "unmasked_grid": lambda: [qlist(p) for p in
+                                          np.asarray(mask.derive_grid.unmasked, dtype=float).reshape(-1, 2)],
+                "binned": lambda: _slim(ov.binned_array_2d_from(array=vals)),
+                "binned_irregular": lambda: _slim(ov.binned_array_2d_from(
+                    array=aa.ArrayIrregular(values=np.asarray(vals)))),
+                "sub_total": lambda: int(ov.sub_total),
+            }
+            names = list(reads)
+            if d.get("order"):
+                import random as _random
+
+                _random.Random(d["order"]).shuffle(names)
+            return {k: reads[k]() for k in names}
+        if "grid" in o:
+            meth = obj.raw_from if path == "decorator_raw" else obj.image_2d_from
+            return {"values": _slim(meth(grid=o["grid"]))}
+        if path == "oversampled_grid":
+            ov = o["sampler"]
+            gos = aa.Grid2DOverSampled(grid=ov.over_sampled_grid, over_sampler=ov,
+                                       pixels_in_mask=o["mask"].pixels_in_mask)
+            return {"values": _slim(obj.image_2d_from(grid=gos))}
+        return {"values": _slim(o["sampler"].array_via_func_from(func=pc["plain"], obj=obj))}
+
+    @staticmethod
+    def _polluter_args(c):
+        """a user function / table for the FAILING call of an iterate world: constant 7 on the left part of the
+        frame (agrees at the first level), steep or alternating elsewhere (never agrees)"""
+        mj, g = c["mask"], geom_of(c)
+        h, w = mj["h"], mj["w"]
+        if "table" in c:
+            rows = [[7.0 if (i % w) < (w + 1) // 2 else (1.0 if l % 2 == 0 else 100.0) for i in range(h * w)]
+                    for l in range(len(c["table"]))]
+            sy, sx, oy, ox = (float(v) for v in g)
+            return {"f": None, "table": [np.array(r) for r in rows], "geom": (sy, sx, oy, ox), "shape": (h, w),
+                    "ret_int": False}
+        cols = sorted({x for _, x in unmasked_pixels(mj)}) or [0]
+        xm = pixel_centre(h, w, g, 0, cols[len(cols) // 2])[1] - g[1] / 2     # a pixel edge: never a sub-centre
+        cy, cx = pixel_centre(h, w, g, *(unmasked_pixels(mj) or [(0, 0)])[-1])
+        dy, dx = affine(1, 0, -cy), affine(0, 1, -cx)
+        wild = add(C(F(1, 16)), mul(C(64), dy, dy), mul(C(64), dx, dx))
+        return {"f": ["gt0", affine(0, -1, xm), C(7), wild], "table": None, "geom": None, "shape": None,
+                "ret_int": False}
+
+    def _h_fault(self, aa, pc, c, o, d, fc=None):
+        """make a call on the shared objects fail half-way; the caller catches the exception and carries on"""
+        import builtins
+
+        fault = d["fault"]
+        exc = getattr(builtins, d.get("exc") or "ValueError")
+        if d.get("pollute") and c["kind"] == "iterate":
+            try:
+                k = int(fault.split("_")[1])
+                self._h_observe(aa, pc, c, o, pc["cls"](**self._polluter_args(c), raise_at=k, raise_cls=exc), {})
+            except Exception:
+                return True
+            return False
+        try:
+            if fault == "binned_short":
+                t = int(o["sampler"].sub_total)
+                if t:
+                    o["sampler"].binned_array_2d_from(array=np.zeros(t - 1))
+            elif fault == "func_raise":
+                o["sampler"].array_via_func_from(func=pc["plain"], obj=pc["cls"](f=C(1), raise_at=1, raise_cls=exc))
+            elif fault == "short":
+                self._h_observe(aa, pc, c, o, pc["cls"](**self._obj_args(fc or c), short=True), {})
+            else:
+                k = int(fault.split("_")[1])
+                self._h_observe(aa, pc, c, o, pc["cls"](**self._obj_args(fc or c), raise_at=k, raise_cls=exc), {})
+        except Exception:
+            return True
+        return False
+
+    def _run_history(self, case):
+        import copy as _copy
+
+        subs = self._subs(case)
+        for c in subs:
+            if c["kind"] != "uniform":
+                self._check_margin(self._analysis(c))
+        aa = load_autoarray()
+        pc = profile_classes()
+        opts = case.get("opts") or {}
+        share = opts.get("share") or {}
+        steps = opts.get("steps") or [{} for _ in subs]
+        masks, oss, holders, objs = {}, {}, {}, {}
+        prev, first, last_obj = None, None, None
+        out = []
+        for i, c in enumerate(subs):
+            d = steps[i] if i < len(steps) else {}
+            o = None
+            try:
+                mk, ok = self._mkey(c), self._oskey(c)
+                hk = (mk, ok, "decorator" if self._path(c) == "decorator_raw" else self._path(c))
+                if d.get("back") and first is not None:
+                    o = first                                   # the source object again, after a derived one was used
+                elif d.get("derive") and prev is not None:
+                    pg = prev["grid"]
+                    how = d["derive"]
+                    if how == "slim":
+                        g2 = pg.slim
+                    elif how == "native":
+                        g2 = pg.native
+                    elif how == "copy":
+                        g2 = _copy.copy(pg)
+                    elif how == "deepcopy":
+                        g2 = _copy.deepcopy(pg)
+                    elif how == "arith0":
+                        g2 = pg + 0.0
+                    elif how == "subtracted":
+                        g2 = pg.subtracted_from(offset=tuple(float(F(v)) for v in c["offset"]))
+                    elif how == "arith_shift":
+                        g2 = pg - np.array([float(F(v)) for v in c["offset"]])
+                    else:   # regrid_os: the constructor the decorator itself uses for over_sampling=None
+                        g2 = aa.Grid2D(values=pg, mask=pg.mask,
+                                       over_sampling=aa.OverSamplingUniform(sub_size=self._sub_size(aa, c, pg.mask)))
+                    o = {"mask": g2.mask, "grid": g2, "os": g2.over_sampling}
+                elif d.get("edit") == "grid" and prev is not None:
+                    o = prev
+                    new = self._custom_grid_values(c)
+                    cur = np.asarray(o["grid"])
+                    for k in range(len(new)):
+                        if tuple(np.asarray(new[k], dtype=float)) != tuple(np.asarray(cur[k], dtype=float)):
+                            o["grid"][k] = new[k]               # public __setitem__ of the library's Grid2D
+                else:
+                    mask = None
+                    if d.get("edit") == "mask" and prev is not None:
+                        mask = prev["mask"]
+                        h, w = c["mask"]["h"], c["mask"]["w"]
+                        cur = np.array(mask)
+                        for j, b in enumerate(c["mask"]["bits"]):
+                            if bool(cur[j // w, j % w]) != (b == "1"):
+                                mask[j // w, j % w] = (b == "1")  # public __setitem__ of Mask2D
+                        masks = {k: v for k, v in masks.items() if v is not mask}
+                        holders = {k: v for k, v in holders.items() if v["mask"] is not mask}
+                    elif share.get("mask") and mk in masks:
+                        mask = masks[mk]
+                    if mask is None:
+                        mask = self._mask(aa, c)
+                    masks[mk] = mask
+                    if share.get("holder") and hk in holders and d.get("edit") in (None, "vals"):
+                        o = holders[hk]
+                    elif d.get("edit") == "sub" and prev is not None and "ss" in prev:
+                        ss = prev["ss"]
+                        new = expand_sub(c, len(ss))
+                        for k in range(len(new)):
+                            if int(ss[k]) != new[k]:
+                                ss[k] = new[k]                  # public __setitem__ of the Array2D sub-size map
+                        o = self._h_build(aa, c, mask, os_=prev.get("os"), ss=ss)
+                    else:
+                        os_ = oss.get(ok) if share.get("os") else None
+                        o = self._h_build(aa, c, mask, os_=os_)
+                    if "os" in o:
+                        oss[ok] = o["os"]
+                    holders[hk] = o
+                    if opts.get("decoy"):
+                        self._h_decoy(aa, pc, o, opts["decoy"] + i)
+                if first is None:
+                    first = o
+                # the user object
+                args = self._obj_args(c) if c["kind"] != "uniform" else None
+                obj = None
+                if args is not None:
+                    okey = json.dumps([c.get("f"), c.get("table"), c.get("ret_int")], sort_keys=True)
+                    if d.get("obj") == "mutate" and last_obj is not None:
+                        obj = last_obj
+                        for k, v in args.items():
+                            setattr(obj, k, v)                  # the caller edits the profile in place
+                    elif share.get("obj") and okey in objs:
+                        obj = objs[okey]
+                    else:
+                        obj = pc["cls"](**args)
+                    obj.calls = 0
+                    objs[okey] = obj
+                    last_obj = obj
+                else:
+                    new = [float(F(v)) for v in c["values"]]
+                    if d.get("edit") == "vals" and prev is not None and "vals" in prev \
+                            and isinstance(prev["vals"], np.ndarray) and len(prev["vals"]) == len(new):
+                        o["vals"] = prev["vals"]
+                        for k in range(len(new)):
+                            if o["vals"][k] != new[k]:
+                                o["vals"][k] = new[k]           # numpy edit of the caller-owned sub-values
+                    else:
+                        o["vals"] = self._values_arg(c)
+                if d.get("fault"):
+                    fj = d.get("fault_case")
+                    self._h_fault(aa, pc, c, o, d, subs[fj] if fj is not None and fj < len(subs) else None)
+                    if obj is not None:
+                        obj.calls = 0
+                out.append(self._h_observe(aa, pc, c, o, obj, d))
+            except Skip:
+                raise
+            except Exception as e:
+                out.append({"err": type(e).__name__, "msg": str(e)[:200]})
+            if o is not None:
+                prev = o
+        return {"steps": out}
+
+    # ---- model / compare / oracle: observation i against a fresh evaluation of cases[i] -------------
+    def _history_requests(self, case, impl_obs):
+        reqs, counts = [], []
+        steps = impl_obs.get("steps", []) if isinstance(impl_obs, dict) else []
+        for c, o in zip(self._subs(case), steps):
+            try:
+                rs = self.model_requests(c, o)
+            except Skip:
+                rs = []
+            counts.append(len(rs))
+            reqs += rs
+        case["_counts"] = counts
+        return reqs
+
+    def _history_model_obs(self, case, responses):
+        out, k = [], 0
+        for c, n in zip(self._subs(case), case.get("_counts", [])):
+            out.append(self.model_obs(c, responses[k:k + n]) if n else None)
+            k += n
+        return {"steps": out}
+
+    def _history_compare(self, case, impl_obs, model_obs, cmp):
+        for i, (c, io, mo) in enumerate(zip(self._subs(case), impl_obs.get("steps", []), model_obs["steps"])):
+            if mo is None:
+                continue
+            try:
+                dd = self.compare(c, io, mo, cmp)
+            except Skip:
+                continue
+            if dd:
+                return f"history {case['script']} observation {i}: {dd}"
+        return None
+
+    def _narrate(self, case, upto):
+        opts = case.get("opts") or {}
+        sh = "+".join(k for k, v in (opts.get("share") or {}).items() if v) or "nothing"
+        parts = [f"objects shared between steps: {sh}"]
+        if opts.get("decoy"):
+            parts.append("every other derived quantity / sibling call read first")
+        for i, d in enumerate((opts.get("steps") or [])[:upto + 1]):
+            bits = [f"{k}={v}" for k, v in d.items()
+                    if k in ("fault", "exc", "fault_case", "pollute", "edit", "derive", "obj", "back")
+                    and v is not None and v != ""]
+            if case["cases"][i].get("twin"):
+                bits.append(f"near-duplicate ({case['cases'][i]['twin']})")
+            if bits:
+                parts.append(f"step {i}: " + ", ".join(bits))
+        return "; ".join(parts)
+
+    def _history_oracle(self, case, obs):
+        if not isinstance(obs, dict) or "steps" not in obs:
+            return False, f"implementation raised {obs}"
+        subs = self._subs(case)
+        if len(obs["steps"]) != len(subs):
+            return False, "history was cut short"
+        for i, (c, o) in enumerate(zip(subs, obs["steps"])):
+            try:
+                holds, detail = self.oracle(c, o)
+            except Skip:
+                continue
+            if not holds:
+                return False, (f"history '{case['script']}', observation {i} of {len(subs)} is not what a freshly built "
+                               f"object in that state gives [{self._narrate(case, i)}]: {detail}")
+        return True, ""
+
+    def _shrink_history(self, case):
+        base = {k: v for k, v in case.items() if not k.startswith("_") and k != "corpus_file"}
+        opts = base.get("opts") or {}
+        steps = list(opts.get("steps") or [{} for _ in base["cases"]])
+        if opts.get("decoy"):
+            yield {**base, "opts": {**opts, "decoy": None}}
+        for i, d in enumerate(steps):
+            if d.get("fault"):
+                s2 = list(steps)
+                s2[i] = {k: v for k, v in d.items() if k not in ("fault", "exc", "fault_case", "pollute")}
+                yield {**base, "opts": {**opts, "steps": s2}}
+            if d.get("order"):
+                s2 = list(steps)
+                s2[i] = {k: v for k, v in d.items() if k != "order"}
+                yield {**base, "opts": {**opts, "steps": s2}}
+        n = len(base["cases"])
+        if n == 1 and not any(steps[0].get(k) for k in ("edit", "derive", "back")):
+            # a one-observation history: shrink the world itself (pixels, sub-sizes, schedule)
+            for c2 in self._shrink(base["cases"][0]):
+                yield {**base, "cases": [c2]}
+        if n > 1:
+            # only trailing observations are dropped: what precedes the failing observation is what makes it fail
+            # (a leading step may have filled a process-wide memo, and a replay starts from a fresh process)
+            yield {**base, "cases": base["cases"][:-1], "opts": {**opts, "steps": steps[:n - 1]}}
+
     # -------------------------------------------------------------------------------- bookkeeping
     def nontrivial(self, case, obs):
+        if case["kind"] == "large":
+            return True
+        if case["kind"] == "history":
+            return any(self.nontrivial(c, None) for c in case["cases"])
         n = case["mask"]["bits"].count("0")
         if case["kind"] == "uniform":
             return any(s >= 2 for s in expand_sub(case, n))
@@ -1284,6 +2770,12 @@ class C09(PropertyCheck):
         """D15: OverSamplerIterate.array_via_func_from returns the sub-size-1 array when it is all zero.
         Predicate on the input: the function / table is exactly zero at every unmasked pixel centre
         while the value the rule selects is non-zero for some pixel."""
+        if case["kind"] == "history":
+            # histories are generated outside the D15 class; a history that contains a D15 step is D15
+            for c in self._subs(case):
+                if self.known_finding(c, None):
+                    return "D15"
+            return None
         if case["kind"] != "iterate":
             return None
         a = self._analysis(case)
@@ -1311,6 +2803,12 @@ class C09(PropertyCheck):
     def _shrink(self, case):
         """drop one unmasked pixel (with its sub-size entry, its block of values, its grid row), lower a
         sub-size, shorten the schedule."""
+        if case["kind"] == "large":
+            yield from self._shrink_large(case)
+            return
+        if case["kind"] == "history":
+            yield from self._shrink_history(case)
+            return
         mj = case["mask"]
         bits = mj["bits"]
         base = {k: v for k, v in case.items() if not k.startswith("_") and k != "corpus_file"}
@@ -1344,6 +2842,10 @@ class C09(PropertyCheck):
                 yield c2
 
     def theorems_for(self, case):
+        if case["kind"] == "large":
+            case = {"kind": case["what"]}
+        if case["kind"] == "history":
+            return sorted({t for c in case["cases"] for t in self.theorems_for(c)})
         if case["kind"] == "uniform":
             return ["C09.a_grid_eq_partition_centres", "C09.b_slimForSubSlim", "C09.c_binned_is_mean",
                     "C09.c_areas_sum"]
